@@ -59,7 +59,8 @@ def signature(case, verdict):
               BufferCurveSetBuilder::addLinearRingSides, whose orientation / erosion heuristics assume a simple ring)
     mode buf, otherwise: clause = null | type | invalid | ring ...
     other modes: simpleOpenLines = false when the input linework is closed or not simple (two segments meet other than consecutive
-              ones at their common vertex, or a point is repeated) or, for single-sided buffers, multi-part; dTiny as above;
+              ones at their common vertex, or a point is repeated) or, for single-sided buffers, multi-part or coming within |d|
+              of itself (a vertex within |d| of a segment it does not belong to); dTiny as above;
               clause shape = a result vertex / band location is wrong; reg = big when |d| exceeds the shortest segment"""
     kv = params_of(case)
     f = fields(verdict)
@@ -100,7 +101,7 @@ def signature(case, verdict):
         parts = 1
     tin = parts_of(case)[1].split()
     container = len(tin) > 1 and tin[1] in ("ML", "MP", "MY", "GC")      # BufferBuilder::buffer takes the per-part path for these
-    if selfx or f.get("closed") == "1" or (mode == "ss" and (parts > 1 or container)):
+    if selfx or f.get("closed") == "1" or (mode == "ss" and (parts > 1 or container or f.get("near") == "1")):
         # single-sided buffers / offset curves of linework that is closed, not simple or multi-part: one class per call
         return {"mode": mode, "simpleOpenLines": False}
     if tiny:
@@ -230,6 +231,8 @@ def run(ctx):
         "chord-sagitta fact 'a polygonal arc with angular step a stays within r(1-cos(a/2)) of the circle' interprets fillet_step_bound; it is not proved",
         "flat caps and mitre/bevel joins: inner claims only while |d| <= shortest input segment (OffsetSegmentGenerator.cpp: 'non-round joins only "
         "really make sense for relatively small buffer distances'); single-sided results and offset curves are checked at their vertices only",
+        "the zero-distance clause is checked only when the polygons of the input form a valid polygonal set (buffer(0) of overlapping polygons "
+        "is a repair heuristic, not covered by the property); negative distances on overlapping polygons assert only the must-contain side",
         "input validity is filtered with GEOSisValid; result validity is GEOSisValid plus an exact light ring check (closed, >= 4 points, non-zero area, "
         "exact simplicity for rings of <= 80 points)",
         "input simplification, closing-segment factors, inverted-ring / hole removal and the precision-retry ladder are exercised, not modelled",
